@@ -39,6 +39,23 @@ def gen_cases(rng, tier):
             px += [rng.randint(0, a), rng.randint(0, a), rng.randint(0, a), a]
         add([3, w, h] + px)
         add([6, w, h] + [rng.randint(0, 255) for _ in range(w * h)])
+    # chains: every pixel is the demultiplied value of its left neighbour taken as premultiplied bytes again (same alpha),
+    # runs of equal pixels and alternations: encode_png must treat every pixel on its own (no state carried along a row)
+    for i in range(120 if tier == "quick" else 2000):
+        w, h = rng.randint(2, 12), rng.randint(1, 4)
+        px = []
+        while len(px) < 4 * w * h:
+            a = rng.choice([128, 128, 200, 254, 64, 16, rng.randint(2, 254)])
+            c = [rng.randint(0, max(0, a * a // 255 // 2)) for _ in range(3)]
+            for _ in range(rng.randint(2, 5)):
+                px += c + [a]
+                if rng.random() < 0.3:
+                    px += c + [a]          # a run of two equal pixels
+                nc = [int(v / (a / 255.0) + 0.5) for v in c]
+                if max(nc) > a:
+                    break
+                c = nc
+        add([3, w, h] + px[:4 * w * h])
     for i in range(n):
         ct = rng.choice([0, 2, 4, 6])
         ch = {0: 1, 2: 3, 4: 2, 6: 4}[ct]
@@ -53,6 +70,18 @@ def gen_cases(rng, tier):
                     s[-1] = rng.choice([0, 152, 1, 254])
                 data += s
             add([4, ct, w, h] + data)
+    # hand-built 8-bit files of every colour type, Adam7-interlaced and not (the encoder dependency writes no interlaced files)
+    for i in range(160 if tier == "quick" else 2400):
+        ct = rng.choice([0, 2, 4, 6])
+        ch = {0: 1, 2: 3, 4: 2, 6: 4}[ct]
+        w, h = rng.choice([(1, 1), (2, 2), (3, 5), (5, 3), (8, 8), (9, 9), (1, 9), (9, 1), (rng.randint(1, 12), rng.randint(1, 12))])
+        data = []
+        for _ in range(w * h):
+            sm = [rng.choice([0, 255, 200, 229, rng.randint(0, 255)]) for _ in range(ch)]
+            if ct in (4, 6) and rng.random() < 0.3:
+                sm[-1] = rng.choice([0, 152, 1, 254])
+            data += sm
+        add([10, ct, w, h, i % 2] + data)
     for i in range(n // 3):
         w, h, np_ = rng.randint(1, 6), rng.randint(1, 6), rng.randint(1, 8)
         add([8, w, h, np_] + [rng.randint(0, 255) for _ in range(3 * np_)] + [rng.randrange(np_) for _ in range(w * h)])
@@ -146,11 +175,13 @@ def oracle(suite, args, out):
         if o != args[3:]:
             return "mask decode(encode(m)) != m"
         return None
-    if k in (4, 7):
+    if k in (4, 7, 10):
         if o == [-1]:
-            return "decoding a valid %d-bit PNG of colour type %d failed" % (8 if k == 4 else 16, args[1])
+            return "decoding a valid %d-bit %sPNG of colour type %d failed" % (16 if k == 7 else 8, "interlaced " if k == 10 and args[4] else "", args[1])
+        if o == [-4]:
+            return "the decoded pixmap has another size than the file"
         ct = args[1]; ch = {0: 1, 2: 3, 4: 2, 6: 4}[ct]
-        vals = args[4:] if k == 4 else [v >> 8 for v in args[4:]]
+        vals = args[4:] if k == 4 else (args[5:] if k == 10 else [v >> 8 for v in args[4:]])
         exp = []
         for i in range(0, len(vals), ch):
             s = vals[i:i + ch]
